@@ -70,7 +70,9 @@ CHECKS = {
         note="Trusted: independent FLV/WebSocket reader harness/proj/flv.go; lengths/timestamps are boundary pools. Every "
              "HTTP-FLV / WebSocket session of the cover runs twice: with synchronous writes and through lal's asynchronous "
              "write queue with a peer that reads only after everything is queued; every second file session finds an older, "
-             "longer recording at its path.",
+             "longer recording at its path. Recordings with a tag of 256 KiB .. 1 MiB between small ones are written as well, and "
+             "a share of the recordings is read back through lal's own HTTP-FLV client (httpflv.PullSession) from a loopback HTTP "
+             "server - a plain 200 response, and a 302 with a body first.",
         ref="6/C11"),
     "C18": dict(
         technique="TLA+ spec Amf0 (token-level encoder + lal's decoder as a depth-bounded machine; TLC enumerates value "
@@ -80,7 +82,8 @@ CHECKS = {
              "(ok, consumed, value) triple is decided by TLC against the machine; lal-written values are tokenised and "
              "compared with the spec encoder; deep nesting (to 5.5 M levels) runs in a child process under a 64 MiB stack.",
         note="Trusted: independent AMF0 encoder/tokenizer harness/proj/amf.go; arbitrary bytes are covered as "
-             "well-typed token sequences with truncation, count/marker faults, not as every byte string.",
+             "well-typed token sequences with truncation, count/marker faults, not as every byte string. Numbers are a pool of "
+             "ten values compared bit for bit (negative zero, +Inf, a NaN with a payload and the smallest subnormal among them).",
         ref="6/C18"),
     "C19": dict(
         technique="TLA+ spec Codec (SPS syntax trees with the standard's size formulas, carrier / framing / AAC graphs, "
@@ -281,7 +284,8 @@ CHECKS = {
              "routine) and that goroutine / descriptor counts do not grow over 40-200 publish cycles; re-publish scenarios "
              "decide that nothing of a predecessor reaches RTMP / HTTP-FLV consumers (Fanout) and that every epoch is a fresh "
              "stream for HTTP-TS subscribers (staying, gap-joining, mid-epoch), HLS segments and RTSP session descriptions.",
-        note="Relay-push teardown with the publisher is decided in C17 (pn = 0 after the input leaves). 'Pending audio flushed' "
+        note="Relay-push teardown with the publisher (pn = 0 after the input leaves, no orphaned session after the next publisher) "
+             "is replayed here for the configurations U1 / U2 and decided in full in C17. 'Pending audio flushed' "
              "is observed through the finalised TS record / HLS files only (C06 / C10 inspect their content). The idle sweep "
              "is modelled without relay pull / push sessions and GB28181 inputs (their own timeout); RTSP publishers of the sweep "
              "configuration S3 are set up completely (SETUP interleaved, RECORD), their media-side bytes are RTCP sender "
